@@ -586,7 +586,8 @@ RunRecipe(s, b, rc, v) ==
                          IN [s |-> s1, node |-> s1.n]
     [] rc.r = "junk"  ->   \* create a node, drop it, then do rc.then
          LET j == RunRecipe(s, b, rc.pre, v)
-             s1 == [j.s EXCEPT !.junk = @ \cup {j.node}]
+             \* the only handle is dropped at once: the Rc dies, weak references dangle
+             s1 == [j.s EXCEPT !.junk = @ \cup {j.node}, !.rel = @ \cup {j.node}]
          IN RunRecipe(s1, b, rc.then, v)
     [] rc.r = "leak"  ->   \* hand the node built by rc.then to the harness
          LET j == RunRecipe(s, b, rc.then, v)
@@ -818,7 +819,7 @@ StabiliseBegin(s) ==
                       !.inv = <<>>, !.cutLog = <<>>, !.cbLog = <<>>, !.obsLog = <<>>,
                       !.invLog = <<>>, !.readLog = <<>>, !.dlv = <<>>, !.order = <<>>,
                       !.rhsLog = <<>>,
-                      !.envAtStart = s.cell]
+                      !.envAtStart = s.cell, !.subsAtBegin = s.osubs]
       s2 == AddNewObservers([s1 EXCEPT !.newObs = <<>>], s1.newObs, 1)
   IN UnlinkDisallowed([s2 EXCEPT !.disObs = <<>>], s2.disObs, 1)
 
@@ -939,7 +940,7 @@ InitState(maxH) ==
    \* ghost
    round |-> 0, inv |-> <<>>, runs |-> <<>>, cutLog |-> <<>>, cbLog |-> <<>>, obsLog |-> <<>>,
    invLog |-> <<>>, readLog |-> <<>>, retLog |-> <<>>, dlv |-> <<>>, order |-> <<>>,
-   rhsLog |-> <<>>, lastRan |-> <<>>, lastChg |-> <<>>, envAtStart |-> <<>>]
+   rhsLog |-> <<>>, lastRan |-> <<>>, lastChg |-> <<>>, envAtStart |-> <<>>, subsAtBegin |-> <<>>]
 
 ApiVar(s, v)   == NewNode(s, [k |-> "var", init |-> v], 0)          \* IncrState::var: Scope::Top
 ApiConst(s, v) == NewNode(s, [k |-> "const", init |-> v], s.curScope)
@@ -976,5 +977,22 @@ ApiObsClone(s, o) == [s EXCEPT !.oclones[o] = @ + 1]
 ApiObsDrop(s, o) ==
   LET s1 == [s EXCEPT !.oclones[o] = @ - 1] IN
   IF s1.oclones[o] = 0 THEN DisallowObs(s1, o) ELSE s1
+\* State::set_max_height_allowed (state.rs:449-457; adjust_heights_heap.rs:42-49;
+\* recompute_heap.rs:194-208).  Without "max_height" the vectors are resized to N queues
+\* (limit N-1) and the debug check fails on every shrink (defect 4).
+ApiSetMaxHeight(s, new) ==
+  IF ~Ok(s) THEN s ELSE
+  IF s.status = "stabilising" THEN Fail(s, "panic:set_max_height_stabilising") ELSE
+  IF new < s.ahhSeen THEN Fail(s, "panic:max_height_seen") ELSE
+  LET s1 == DGuard(s, s.ahhLen = 0, "dassert:ahh_nonempty")
+      oldLen == s.rchMax + 1
+      fixed == "max_height" \in Fix
+      newLen == IF fixed THEN new + 1 ELSE new
+      s2 == IF fixed
+            THEN DGuard(s1, \A h \in DOMAIN s1.rch : h <= new, "dassert:rch_shrink_nonempty")
+            ELSE DGuard(s1, ~(new + 1 < oldLen), "dassert:rch_shrink")
+  IN IF ~Ok(s2) THEN s2 ELSE
+     [s2 EXCEPT !.ahhMax = newLen - 1, !.rchMax = newLen - 1,
+                !.rchLower = Min(@, newLen + 1)]
 ApiClearLogs(s) == [s EXCEPT !.retLog = <<>>]
 =============================================================================
